@@ -59,3 +59,31 @@ func TestClamp(t *testing.T) {
 		t.Fatalf("clamp: %s", c.Text(16))
 	}
 }
+
+// Incremental use (Clone, block-wise Write) equals the one-shot Sum.
+func TestIncremental(t *testing.T) {
+	key := h("85d6be7857556d337f4452fe42d506a8 0103808afb0db2fd4abff6af4149f51b")
+	msg := make([]byte, 200)
+	for i := range msg {
+		msg[i] = byte(i*7 + 3)
+	}
+	run := NewAcc(key)
+	for n := 0; n <= len(msg); n++ {
+		full := n / 16 * 16
+		a := run.Clone() // holds msg[:full-ish]
+		_ = full
+		b := NewAcc(key)
+		b.Write(msg[:n/16*16])
+		if a.Value().Cmp(b.Value()) != 0 {
+			t.Fatalf("running accumulator differs at %d", n)
+		}
+		a.Write(msg[n/16*16 : n])
+		got, want := a.Tag(key), Sum(key, msg[:n])
+		if got != want {
+			t.Fatalf("len %d: incremental %x one-shot %x", n, got, want)
+		}
+		if (n+1)%16 == 0 && n+1 <= len(msg) {
+			run.Write(msg[n+1-16 : n+1])
+		}
+	}
+}
